@@ -11,7 +11,8 @@ class C14(CacheProp):
             "check (re-entrant rewrite from OnEvict: op sweeprw), and after the bucket was swept (insert held at the gate "
             "past its expiry), re-writes with longer/shorter/no TTL and deletes; oracle: a sweep reports only values whose "
             "own expiration has passed, each at most once, and after a sweep no entry remains whose expiry bucket is behind "
-            "the sweep; non-trivial = a sweep evicted something")
+            "the sweep; non-trivial = a sweep evicted something"
+            " Plus, as search only: the stress harness' sweep phase (no value is evicted by the expiry sweep before its expiration) and the spin-synchronised store-level / sweep-level races (DelExpired or the whole sweep against an overwrite with a later expiration or a Del: exactly one side may win).")
 
     def gen(self, rng, n, ctx):
         cases = cachegen.gen_cases(rng, n * 3 // 4, ctx, self.profiles)
